@@ -139,12 +139,10 @@ func c18(r *core.Run) {
 		udv := p.Func("resprot.UnmarshalDataValue")
 		litKey := ""
 		if mdv != nil {
-			for _, b := range mdv.Blocks {
-				for _, in := range b.Instrs {
-					if c, ok := in.(*ssa.Call); ok && core.CalleeName(c) == "builtin:copy" {
-						if s, ok := core.ConstString(c.Call.Args[1]); ok && strings.HasPrefix(s, `{"`) {
-							litKey = strings.TrimSuffix(strings.TrimPrefix(s, `{"`), `":`)
-						}
+			for _, c := range helperCalls(p, mdv) {
+				if core.CalleeName(c) == "builtin:copy" {
+					if s, ok := core.ConstString(c.Common().Args[1]); ok && strings.HasPrefix(s, `{"`) {
+						litKey = strings.TrimSuffix(strings.TrimPrefix(s, `{"`), `":`)
 					}
 				}
 			}
@@ -212,13 +210,24 @@ func c18(r *core.Run) {
 	} else {
 		r.Unres("B1", "resprot.MarshalDataValue", "missing")
 	}
-	for _, fn := range fns {
-		bufs := byteBuffers(fn)
-		if len(bufs) == 0 {
-			r.Bad("B1", core.FuncName(fn), "has-buffer", p.Pos(fn.Pos()), "no hand-assembled buffer found (rule went vacuous)")
+	for _, top := range fns {
+		// the buffer may be assembled in a private helper of the marshaller
+		type fb struct {
+			fn  *ssa.Function
+			buf *ssa.MakeSlice
+		}
+		var all []fb
+		for _, f2 := range p.Helpers(top) {
+			for _, b := range byteBuffers(f2) {
+				all = append(all, fb{f2, b})
+			}
+		}
+		if len(all) == 0 {
+			r.Bad("B1", core.FuncName(top), "has-buffer", p.Pos(top.Pos()), "no hand-assembled buffer found (rule went vacuous)")
 			continue
 		}
-		for i, buf := range bufs {
+		for i, x := range all {
+			fn, buf := x.fn, x.buf
 			ok, desc, segs, _ := layoutCheckBuf(p, fn, buf)
 			r.Check(ok, "B1", core.FuncName(fn), fmt.Sprintf("buffer#%d-exactly-filled", i), p.InstrPos(buf), desc, "hand-assembled JSON buffer is not exactly filled for every input length: "+desc)
 			// B2: variable segments
@@ -239,10 +248,16 @@ func c18(r *core.Run) {
 					if _, isConst := core.ConstString(src); isConst {
 						continue
 					}
-					good := false
-					if ex, ok := src.(*ssa.Extract); ok && ex.Index == 0 {
-						if mc, ok := ex.Tuple.(*ssa.Call); ok && mc.Common().StaticCallee() != nil && mc.Common().StaticCallee().String() == "encoding/json.Marshal" {
-							good = true
+					good := true
+					for _, sv := range paramArgs(p, src, 0) {
+						isEnc := false
+						if ex, ok := sv.(*ssa.Extract); ok && ex.Index == 0 {
+							if mc, ok := ex.Tuple.(*ssa.Call); ok && mc.Common().StaticCallee() != nil && mc.Common().StaticCallee().String() == "encoding/json.Marshal" {
+								isEnc = true
+							}
+						}
+						if !isEnc {
+							good = false
 						}
 					}
 					r.Check(good, "B2", core.FuncName(fn), fmt.Sprintf("buffer#%d-variable-segment<-json.Marshal", i), p.InstrPos(c), "the variable part is the encoder's output", "raw (unescaped) bytes "+valDesc(src)+" are copied into a JSON buffer: ids containing '\"' or '\\' produce invalid or different JSON")
